@@ -39,7 +39,7 @@ CONSTANTS Deviations,     \* named departures of the code from the design that a
           MaxCalls, MinCalls, MaxDepth, MaxMisplaced,
           MaxTop,         \* at most this many top-level calls (the rest of the budget goes into nesting)
           MinKids,        \* a func() does not return before it made this many calls (while the budget lasts)
-          Once            \* functions the generator calls at most once per program (the spine of a focused enumeration)
+          Once            \* functions the generator calls exactly once per program where documented, before anything else (the spine of a focused walk)
 
 E(doc, opens, ns, ts, vs) == [doc |-> doc, opens |-> opens, ns |-> ns, ts |-> ts, vs |-> vs]
 
@@ -652,7 +652,8 @@ ServiceBlock(ns, h, f) ==
 ReqRefNames(ns, i) ==
   LET f == ns[i].f  n == ns[i].n IN
   CASE f \in {"Param", "Header", "Cookie"} -> {BaseName(n)} \cap AttrNames
-    [] f \in {"MapParams", "Body"} /\ n \in AttrNames -> {n}
+    [] f = "Body" /\ n \in AttrNames -> {n}
+    [] f = "MapParams" /\ n \in AttrNames /\ OnlyKid(ns, i, "MapParams") -> {n}      \* a later MapParams replaces an earlier one
     [] f \in Verbs -> Wildcards(n)
     [] OTHER -> {}
 \* names a node refers to in the method result when it is a direct child of a success response
@@ -662,9 +663,10 @@ ResRefNames(ns, i) ==
     [] f = "Body" /\ n \in AttrNames -> {n}
     [] OTHER -> {}
 \* Body(func() { Attribute("x") }) in the method's HTTP block: the body attributes are payload attributes
-BodyRefNames(ns, i) == IF ns[i].f = "Body" /\ ns[i].n = "-" /\ ns[i].t = "-" /\ ns[i].v \in OpenVars THEN DeclNames(ns, i) ELSE {}
+\* (a later Body replaces an earlier one: only a single Body is judged)
+BodyRefNames(ns, i) == IF ns[i].f = "Body" /\ ns[i].n = "-" /\ ns[i].t = "-" /\ ns[i].v \in OpenVars /\ OnlyKid(ns, i, "Body") THEN DeclNames(ns, i) ELSE {}
 \* Tag("x", v) in a success response: x is a result attribute
-TagRefNames(ns, i) == IF ns[i].f = "Tag" /\ ns[i].n \in AttrNames THEN {ns[i].n} ELSE {}
+TagRefNames(ns, i) == IF ns[i].f = "Tag" /\ ns[i].n \in AttrNames /\ OnlyKid(ns, i, "Tag") THEN {ns[i].n} ELSE {}
 
 DanglingRequestMapping(ns) == \E i \in Idx(ns) :
   /\ ns[i].p # 0 /\ EndpointBlock(ns, ns[i].p, "HTTP") /\ WellPlaced(ns, i) /\ NoParentSvc(ns)
@@ -692,7 +694,7 @@ DanglingScheme(ns) == \E i \in Idx(ns) :
 ViewsOf(ns, tok) == {"default"} \cup {ns[k].n : k \in UNION {{j \in KidsOf(ns, r) : ns[j].f = "View"} : r \in RTNodes(ns, tok)}}
 DanglingView(ns) ==
   \/ \E i \in Idx(ns) :          \* Result(R1, func() { View("nov") })
-       /\ ns[i].f = "View" /\ ns[i].v = "plain" /\ ns[i].p # 0 /\ WellPlaced(ns, i)
+       /\ ns[i].f = "View" /\ ns[i].v = "plain" /\ ns[i].p # 0 /\ WellPlaced(ns, i) /\ OnlyKid(ns, i, "View")     \* the last View wins
        /\ LET j == ns[i].p IN /\ ns[j].f \in ResultFs /\ ns[j].t \in {"R1", "R2"} /\ ns[j].p # 0
                              /\ Defs(ns, ns[j].p, ResultFs) = {j} /\ ns[ns[j].p].f = "Method"
                              /\ RTNodes(ns, ns[j].t) # {} /\ TypeNodes(ns, ns[j].t) = {}
@@ -814,7 +816,9 @@ NoCall == [f |-> "?", n |-> "?", t |-> "?", c |-> "?"]
 CurCtx == IF stack = <<>> THEN "Top" ELSE stack[Len(stack)].ctx
 CurNode == IF stack = <<>> THEN 0 ELSE stack[Len(stack)].node
 Usable == {f \in Fns : f \in Once => \A i \in Idx(nodes) : nodes[i].f # f}
-WellFns(ctx) == {f \in Usable : ctx \in FT[f].doc}
+\* the spine first: while a once-only function documented for this context is still unused, it is what gets called next
+SpineHere(ctx) == {f \in Usable \cap Once : ctx \in FT[f].doc}
+WellFns(ctx) == IF SpineHere(ctx) # {} THEN SpineHere(ctx) ELSE {f \in Usable : ctx \in FT[f].doc}
 MisFns(ctx) == {f \in Usable : ctx \notin FT[f].doc}
 
 Init == /\ nodes = <<>> /\ stack = <<>> /\ pc = "mode" /\ mode = "-" /\ cur = NoCall /\ nmis = 0
@@ -841,7 +845,7 @@ TokNeeds(t) == CASE t \in {"T1", "nT1", "ArrT1", "ArrnT1", "MapST1", "MapT1S", "
                  [] OTHER -> {}
 DeclaredTypes == {nodes[i].n : i \in {j \in Idx(nodes) : nodes[j].f \in {"Type", "ResultType"} /\ nodes[j].p = 0}}
 Referable(f) == LET P == Pool(FT[f].ts) IN
-                IF Pools \in {"doc", "refs"} /\ f \notin {"Extend", "Reference"}
+                IF Pools \in {"doc", "refs", "min", "tiny"} /\ f \notin {"Extend", "Reference"}
                 THEN (LET Q == {t \in P : TokNeeds(t) \subseteq DeclaredTypes} IN IF Q = {} THEN P ELSE Q)
                 ELSE P
 ChooseT == /\ pc = "t" /\ \E t \in Referable(cur.f) : cur' = [cur EXCEPT !.t = t]
